@@ -711,9 +711,11 @@ func (c *Conn) WriteMessage(messageType MessageType, data []byte) error {
 	if len(data) > 0 {
 		sendOpcode := true
 		sendCompress := compress
+		// control frames must not be fragmented (RFC 6455 5.5).
+		isControl := messageType == PingMessage || messageType == PongMessage || messageType == CloseMessage
 		for len(data) > 0 {
 			n := len(data)
-			if n > c.Engine.MaxWebsocketFramePayloadSize {
+			if n > c.Engine.MaxWebsocketFramePayloadSize && !isControl {
 				n = c.Engine.MaxWebsocketFramePayloadSize
 			}
 			err := c.writeFrame(messageType, sendOpcode, n == len(data), data[:n], sendCompress)
